@@ -94,7 +94,10 @@ class TreeGen(object):
             if rng.random() < 0.6:
                 k += ["/res%d/%d" % (nid, j + 1) for j in range(n)]
         elif kind == "set":
-            k = ["set", rng.choice(KEYS), rng.choice(PATHS), self.val(), rng.choice("01")]
+            # nested writes only onto attribute-bag objects are modelled (Python also allows setattr on enum
+            # members, mutating them process-wide): tree-family writers use plain keys, nested writes live in the
+            # blackboard family
+            k = ["set", rng.choice(KEYS), "-", self.val(), rng.choice("01")]
         elif kind == "unset":
             k = ["unset", rng.choice(KEYS)]
         else:
@@ -125,7 +128,7 @@ class TreeGen(object):
         if k == "oneshot":
             return "oneshot:" + rng.choice("01")
         if k == "s2b":
-            return "s2b:%s:%s" % (rng.choice(KEYS), rng.choice(["-", "-", "p", "q.r"]))
+            return "s2b:%s:-" % rng.choice(KEYS)
         return k
 
     def policy(self, kids):
